@@ -61,6 +61,7 @@ type DFSResult struct {
 }
 
 type dfsState struct {
+	classes  map[string]bool
 	preempt  bool
 	run      RunFunc
 	res      *DFSResult
@@ -108,7 +109,7 @@ func (d *dfsState) one(prefix []int) *Exec {
 	}
 	d.hists[x.Hist] = true
 	d.res.Outcomes[x.Outcome]++
-	if len(x.Viol) > 0 && len(d.res.Viols) < 5 {
+	if len(x.Viol) > 0 && len(d.res.Viols) < 8 && d.newClass(x) {
 		ch := make([]int, len(x.Points))
 		for i, p := range x.Points {
 			ch[i] = p.Chosen
@@ -116,6 +117,36 @@ func (d *dfsState) one(prefix []int) *Exec {
 		d.res.Viols = append(d.res.Viols, DFSViolation{Choices: ch, Viol: x.Viol, Verdict: x.Verdict, Blocked: x.Blocked})
 	}
 	return x
+}
+
+// newClass de-duplicates violations of one subtree by verdict + text (digits ignored), so
+// that many instances of one (possibly known) failure cannot crowd out a different one.
+func (d *dfsState) newClass(x *Exec) bool {
+	if d.classes == nil {
+		d.classes = map[string]bool{}
+	}
+	var b []byte
+	b = append(b, x.Verdict...)
+	for _, c := range []byte(x.Viol[0]) {
+		if c < '0' || c > '9' {
+			b = append(b, c)
+		}
+	}
+	for _, bl := range x.Blocked {
+		if len(bl) < 300 {
+			for _, c := range []byte(bl) {
+				if c < '0' || c > '9' {
+					b = append(b, c)
+				}
+			}
+		}
+	}
+	k := string(b)
+	if d.classes[k] {
+		return false
+	}
+	d.classes[k] = true
+	return true
 }
 
 func (d *dfsState) explore(prefix []int, budget int) {
